@@ -68,6 +68,75 @@ theorem frame_newPhrase (sh0 sh : Shared D L) (c0 : CompEditor) : Frame sh0 c0 (
   · exact frame_panic _ _ _
   · exact frame_fuel _ _
 
+/-! ### `open_phrase` (F02 / F03 repair): `new_phrase`, or — for a list without candidates — the saved
+cursor restored and the request ignored.  Generic case lemmas, used by every frame family. -/
+
+/-- popping the cursor saved by `new_phrase` restores the composition editor (cursor inside the buffer) -/
+theorem pop_push_clamp (c : CompEditor) (h : c.cursor ≤ c.inner.len) : c.pushCursor.clampCursor.popCursor = c := by
+  unfold CompEditor.clampCursor CompEditor.pushCursor
+  split <;>
+  · unfold CompEditor.popCursor
+    simp only [List.getLast?_append, List.getLast?_singleton, Option.some_or, List.dropLast_concat]
+    rw [Nat.min_eq_left h]
+
+/-- `symbol_for_select` answers only with the cursor inside the buffer -/
+theorem cursor_le_of_symbolForSelect {c : CompEditor} {sym : Sym} (h : c.symbolForSelect = some sym) :
+    c.cursor ≤ c.inner.len := by
+  unfold CompEditor.symbolForSelect CompEditor.isEob at h
+  split at h
+  · next he => simp only [beq_iff_eq] at he; omega
+  · unfold Composition.symbol? at h
+    split at h
+    · cases h
+    · next hlt => exact Nat.le_of_lt (Nat.lt_of_not_ge hlt)
+
+/-- what `new_phrase` returns: the cursor saved and clamped, a phrase list -/
+theorem newPhrase_shape {sh sh' : Shared D L} {t : Trans} (h : newPhrase env sh = .ok (sh', t)) :
+    sh' = { sh with com := sh.com.pushCursor.clampCursor } ∧ ∃ s, t = .toState (.selecting s) := by
+  unfold newPhrase at h
+  simp only at h
+  split at h
+  · injection h with h; injection h with h1 h2; exact ⟨h1.symm, _, h2.symm⟩
+  · cases h
+  · cases h
+
+/-- the two ways `open_phrase` returns: as `new_phrase` did (a list with candidates), or ignored with the
+    saved cursor popped again -/
+theorem openPhrase_cases {sh sh' : Shared D L} {t : Trans} (h : openPhrase env sh = .ok (sh', t)) :
+    (newPhrase env sh = .ok (sh', t) ∧ ∃ s, t = .toState (.selecting s)) ∨
+    (t = .spin .ignore ∧ sh' = Shared.cancelSelecting { sh with com := sh.com.pushCursor.clampCursor }) := by
+  unfold openPhrase at h
+  split at h
+  · next sh1 s hn =>
+    split at h
+    · injection h with h; injection h with h1 h2
+      exact .inr ⟨h2.symm, by rw [← h1, (newPhrase_shape env hn).1]⟩
+    · injection h with h; injection h with h1 h2
+      exact .inl ⟨by rw [hn, ← h1, ← h2], s, h2.symm⟩
+    · cases h
+    · cases h
+  · next hne =>
+    obtain ⟨_, s, hs⟩ := newPhrase_shape env h
+    exact absurd (hs ▸ h) (hne _ _)
+
+/-- … with the cursor inside the buffer the ignored request returns the shared state untouched -/
+theorem openPhrase_ignore {sh sh' : Shared D L} {t : Trans} (hc : sh.com.cursor ≤ sh.com.inner.len)
+    (h : openPhrase env sh = .ok (sh', t)) :
+    (newPhrase env sh = .ok (sh', t) ∧ ∃ s, t = .toState (.selecting s)) ∨ (t = .spin .ignore ∧ sh' = sh) := by
+  rcases openPhrase_cases env h with h1 | ⟨h1, h2⟩
+  · exact .inl h1
+  · refine .inr ⟨h1, ?_⟩
+    rw [h2]
+    unfold Shared.cancelSelecting
+    simp only [pop_push_clamp _ hc]
+
+theorem frame_openPhrase (sh : Shared D L) (c0 : CompEditor) (hc : sh.com.cursor ≤ sh.com.inner.len) :
+    Frame sh c0 (openPhrase env sh) := by
+  intro sh' t h
+  rcases openPhrase_ignore env hc h with ⟨_, s, rfl⟩ | ⟨rfl, rfl⟩
+  · exact ⟨fun c => (by cases c), fun c => (by cases c)⟩
+  · exact ⟨fun _ => rfl, fun c => (by cases c)⟩
+
 theorem frame_newPhraseSimple (sh0 sh : Shared D L) (c0 : CompEditor) : Frame sh0 c0 (newPhraseSimple sh) := by
   unfold newPhraseSimple
   simp only
@@ -88,20 +157,23 @@ theorem frame_newSpecialSymbol (sh0 sh : Shared D L) (c0 : CompEditor) (sym : Sy
 
 theorem frame_startSelecting (sh : Shared D L) : Frame sh sh.com (startSelecting env sh) := by
   unfold startSelecting
-  repeat' split
-  all_goals first
-    | exact frame_newPhrase env _ _ _
-    | exact frame_newSpecialSymbol _ _ _ _
-    | frame_leaf
+  split
+  · next sym hs =>
+    split
+    · exact frame_openPhrase env _ _ (cursor_le_of_symbolForSelect hs)
+    · exact frame_newSpecialSymbol _ _ _ _
+  · frame_leaf
 
 theorem frame_startSelectingOrInputSpace (sh : Shared D L) :
     Frame sh sh.com (startSelectingOrInputSpace env sh) := by
   unfold startSelectingOrInputSpace
-  repeat' split
-  all_goals first
-    | exact frame_newPhrase env _ _ _
-    | exact frame_newSpecialSymbol _ _ _ _
-    | frame_leaf
+  split
+  · next sym hs =>
+    split
+    · exact frame_openPhrase env _ _ (cursor_le_of_symbolForSelect hs)
+    · exact frame_newSpecialSymbol _ _ _ _
+  · repeat' split
+    all_goals frame_leaf
 
 /-! learning inside the buffer never touches the composition editor -/
 
@@ -276,12 +348,32 @@ theorem frameSel_selDownSpace (s : Selecting) (sh : Shared D L) : FrameSel sh s 
     | exact frameSel_fuel _ _
     | framesel_leaf
 
+/-- the two ways the `j` / `k` arms end: the retargeted list, or — without candidates — the list closed
+    and the saved cursor restored -/
+theorem closeIfEmpty_cases {r x : SelRes D L} (h : closeIfEmpty env r = .ok x) :
+    x = r ∨ x = ⟨Shared.cancelSelecting r.shared, r.sel, .toState .entering⟩ := by
+  unfold closeIfEmpty at h
+  split at h
+  · split at h
+    · injection h with h; exact .inr h.symm
+    · injection h with h; exact .inl h.symm
+  · cases h
+  · cases h
+
+theorem frameSel_closeIfEmpty (sh0 : Shared D L) (s0 : Selecting) (r : SelRes D L) (hr : r.trans = .spin .absorb) :
+    FrameSel sh0 s0 (closeIfEmpty env r) := by
+  intro x h
+  rcases closeIfEmpty_cases env h with rfl | rfl
+  · rw [hr]; exact ⟨fun c => (by cases c), fun c => (by cases c)⟩
+  · exact ⟨fun c => (by cases c), fun c => (by cases c)⟩
+
 theorem frameSel_selMove (s : Selecting) (sh : Shared D L) (isJ : Bool) : FrameSel sh s (selMove env s sh isJ) := by
   unfold selMove
   repeat' (first | split | (dsimp only; split))
   all_goals first
     | exact frameSel_panic _ _ _
     | exact frameSel_fuel _ _
+    | exact frameSel_closeIfEmpty env _ _ _ rfl
     | framesel_leaf
 
 theorem frameSel_selPrevPage (s : Selecting) (sh : Shared D L) : FrameSel sh s (selPrevPage env s sh) := by
